@@ -111,6 +111,25 @@ CLAIMED = {
          "schedule questions this technique does not decide. acquireTasks' claiming logic and doKillTasks' roster arithmetic are not yet under "
          "contract. GetActiveDetectors results assumed fresh maps; parentRole.GetEnvironmentId an uninterpreted function of the role.",
          "DESIGN.md §6 C04"),
+ "C03": ("Proof obligations on every sequential link of the chain, for all paths: a terminal Mesos status (LOST/KILLED/FAILED/ERROR) of an owned "
+         "task spawns updateTaskState(id, ERROR) (handleMessage); updateTaskState stores the state of a rostered task and hands it to its role; "
+         "HandleExecutorFailed / HandleAgentFailed spawn exactly one ERROR+INACTIVE update per task of the failed executor/agent (loop invariant); "
+         "taskRole / callRole.updateState merge the state and forward it - the same state - to the parent iff the role is critical (so a non-"
+         "critical failure never reaches the environment); aggregatorRole.updateState forwards its own new state after the merge (whose contract, "
+         "C11, makes ERROR dominate); the watcher closure asks for GO_ERROR and forces ERROR when that is refused and the state is not ERROR yet.",
+         "Delivery between goroutines (the non-blocking hand-off from the role tree to the watcher can drop a notification), the 500 ms delay, "
+         "'within bounded time', races with a transition in flight and handleDeviceEvent's TASK_INTERNAL_ERROR branch are not decided. "
+         "Traits.Critical assumed immutable after workflow load. The precondition of aggregatorRole.updateState (fold factorisation) is assumed "
+         "at its call sites.",
+         "DESIGN.md §6 C03"),
+ "C18": ("Narrow claim, three code facts proved for all paths: (1) handleMessage issues a Mesos KILL on a reconciliation answer only for a task "
+         "that is not in the roster or not owned (a genuine defect - every reconciliation answer was killed - was found by this obligation and "
+         "repaired by a fix: commit); (2) NewManager reads aliecs/mesos_fid and seeds the framework-id store before NewScheduler is called, and "
+         "the store's setter writes every new id back under the same key; (3) the SUBSCRIBED handler chain contains subscription tracking on that "
+         "store and reconciliationCall, which sends an implicit (empty) reconcile.",
+         "NOT decided by this technique: crash points in the life of an environment, Mesos' answers and their order after a restart, that every "
+         "surviving task is actually reported by Mesos. These parts of the statement are histories of an external system.",
+         "DESIGN.md §6 C18"),
 }
 
 NOT_APPLICABLE = {
